@@ -1,6 +1,10 @@
 package props
 
 import (
+	"github.com/cosmos/cosmos-sdk/client"
+	clitestutil "github.com/cosmos/cosmos-sdk/testutil/cli"
+	undcmd "github.com/unification-com/mainchain/cmd/und/cmd"
+
 	"fmt"
 	"math/big"
 	"os"
@@ -31,7 +35,7 @@ func init() {
 		},
 		Run:         runC19,
 		Assumptions: []string{"inputs are plain non-negative decimals without exponent or sign, at most nine fractional digits, at most 30 significant digits"},
-		Need:        []string{"conversions"},
+		Need:        []string{"conversions", "command_runs"},
 	})
 }
 
@@ -152,6 +156,43 @@ func runC19(c *fw.Ctx) {
 		c19CheckOne(c, in)
 	}
 	c.Sample(map[string]interface{}{"inputs": inputs[:6]})
+	// the command a user types (`und convert <amount> fund nund`), executed in-process: whatever it
+	// does to its argument before and after calling the conversion is part of what the user gets.
+	// The first inputs of the case plus small amounts (< 0.1 FUND, leading zeros after the point).
+	cli := append([]string{}, inputs[:24]...)
+	for i := 0; i < 16; i++ {
+		fd := c.Rng.Range(2, 9)
+		d := make([]byte, fd)
+		for j := range d {
+			d[j] = byte('0' + c.Rng.Intn(10))
+		}
+		d[0] = '0'
+		cli = append(cli, "0."+string(d))
+	}
+	for _, in := range cli {
+		for _, dir := range [][2]string{{"fund", "nund"}, {"nund", "fund"}} {
+			if dir[0] == "nund" && strings.Contains(in, ".") {
+				continue
+			}
+			var want string
+			if dir[0] == "fund" {
+				want = exactFundToNund(in).String() + "nund"
+			} else if w, err := undtypes.ConvertUndDenomination(in, "nund", "fund"); err == nil {
+				want = w // the function itself was judged above; the command must print what it returns
+			} else {
+				continue
+			}
+			out, err := clitestutil.ExecTestCLICmd(client.Context{}, undcmd.GetDenomConversionCmd(), []string{in, dir[0], dir[1]})
+			c.Count("command_runs", 1)
+			got := ""
+			if out != nil {
+				got = strings.TrimSpace(out.String())
+			}
+			if err != nil || !strings.HasSuffix(got, "= "+want) {
+				c.Violate("command-output-inexact", dir[0]+"-to-"+dir[1], "`und convert %s %s %s` printed %q (err %v), exact result %q", in, dir[0], dir[1], got, err, want)
+			}
+		}
+	}
 	// thorough: the built CLI on a few inputs (binary path via VERIF_UND_BIN, built by check.sh)
 	if bin := os.Getenv("VERIF_UND_BIN"); bin != "" && c.Thorough() && c.Case < 8 {
 		for _, in := range inputs[:4] {
